@@ -50,6 +50,8 @@ package runtime
 //@   loop 1: invariant depth == 0 ==> iNdEx == 0
 //@   loop 1: invariant depth > 0 ==> VarintVal(dAtA, 0) & 7 == 3
 //@   loop 1: increases iNdEx upto l
+//@   note an iteration reports an error only for a record that is malformed where it stands: tag or value varint not terminated within 10 bytes inside the buffer, wire type 6/7, end-group with no open group, negative or overflowing length (so any number of well-formed records, nested or sibling groups included, is walked without an error)
+//@   loop 1: fails only if !(VarintEnd(dAtA, iNdEx) < l && dAtA[VarintEnd(dAtA, iNdEx)] < 0x80) || VarintVal(dAtA, iNdEx) & 7 > 5 || (VarintVal(dAtA, iNdEx) & 7 == 4 && depth == 0) || ((VarintVal(dAtA, iNdEx) & 7 == 0 || VarintVal(dAtA, iNdEx) & 7 == 2) && !(VarintEnd(dAtA, VarintEnd(dAtA, iNdEx) + 1) < l && dAtA[VarintEnd(dAtA, VarintEnd(dAtA, iNdEx) + 1)] < 0x80)) || (VarintVal(dAtA, iNdEx) & 7 == 2 && (int(VarintVal(dAtA, VarintEnd(dAtA, iNdEx) + 1)) < 0 || VarintEnd(dAtA, VarintEnd(dAtA, iNdEx) + 1) + 1 + int(VarintVal(dAtA, VarintEnd(dAtA, iNdEx) + 1)) < 0))
 //@   loop 2: unroll 11
 //@   loop 3: unroll 11
 //@   loop 4: unroll 11
